@@ -102,6 +102,9 @@ def run(tier, replay_path=None):
             n = rng.randint(1, 5)
             given = [rand_cond(rng, rng.randint(0, 3)) if rng.random() < 0.7 else rng.choice(ATOMS) for _ in range(n)]
             cases.append({"id": len(cases), "stmt": PLACES[k % len(PLACES)], "calls": to_calls(given, rng)})
+    if not replay_path:
+        import copy, exprmeth
+        cases = [exprmeth.annotate(copy.deepcopy(c), rng, 0.7) for c in cases]
     recs, dt = replay("cond", cases, wd)
     verdicts, vt = validate("CondTrace", recs, os.path.join(wd, "tv"), jvms=12)
     log("[C06] replayed %d histories in %.1fs, validated in %.1fs" % (len(recs), dt, vt))
